@@ -746,7 +746,7 @@ class Bada3FuelBurnModel(BaseFuelBurnModel):
             mass vector [kg]
         """
 
-        mass = np.full(len(groundspeed), initial_mass)
+        mass = np.full(len(groundspeed), initial_mass, dtype=float)
 
         specific_ground_range = self.calculate_specific_ground_range(
             mass,
@@ -837,7 +837,7 @@ class Bada3FuelBurnModel(BaseFuelBurnModel):
             mass vector [kg]
         """
 
-        mass = np.full(len(groundspeed), final_mass)
+        mass = np.full(len(groundspeed), final_mass, dtype=float)
 
         specific_ground_range = self.calculate_specific_ground_range(
             mass,
@@ -945,7 +945,7 @@ class Bada3FuelBurnModel(BaseFuelBurnModel):
             mass vector [kg]
         """
 
-        mass = np.full(len(groundspeed), initial_mass_estimate)
+        mass = np.full(len(groundspeed), initial_mass_estimate, dtype=float)
 
         specific_ground_range = self.calculate_specific_ground_range(
             mass,
@@ -1071,7 +1071,7 @@ class Bada3FuelBurnModel(BaseFuelBurnModel):
             mass vector [kg]
         """
 
-        mass = np.full(len(groundspeed), initial_mass_estimate)
+        mass = np.full(len(groundspeed), initial_mass_estimate, dtype=float)
 
         specific_ground_range = self.calculate_specific_ground_range(
             mass,
